@@ -263,7 +263,7 @@ def decodeBlob (dec zdec : Bytes → Option Bytes) (ulen : Nat) (ct : Bytes) : O
 def saveAndEncrypt (hash : Bytes → ID) (enc : Bytes → Bytes → Bytes) (dec zdec : Bytes → Option Bytes)
     (zenc : Bytes → Bytes) (cfg : SaveCfg) (tree : Bool) (data : Bytes) (id : ID) (nonce : Bytes) :
     Option (Bytes × Nat) :=
-  let compress := cfg.version > 1 ∧ data.length > 0 ∧ (!cfg.compressionOff || tree)
+  let compress : Bool := decide (cfg.version > 1) && decide (data.length > 0) && (!cfg.compressionOff || tree)
   let ulen := if compress then data.length else 0
   let data' := if compress then zenc data else data
   let ciphertext := enc nonce data'
@@ -312,23 +312,25 @@ inductive SaveUnpOut where
   | ok (id : ID) (name : ID) (bytes : Bytes)
 deriving Repr, DecidableEq, Inhabited
 
+/-- `Repository.verifyUnpacked(buf = ciphertext, t, expected)` (true = no error) -/
+def verifyUnpacked (dec zdec : Bytes → Option Bytes) (cfg : SaveCfg) (t : FileType)
+    (ciphertext expected : Bytes) : Bool :=
+  if cfg.noExtraVerify then true
+  else match dec ciphertext with
+    | none => false
+    | some pt =>
+      let step2 : Option Bytes := if t ≠ .config then decompressUnpacked cfg.version zdec pt else some pt
+      match step2 with
+      | none => false
+      | some plaintext => plaintext == expected
+
 /-- `Repository.saveUnpacked(ctx, t, buf)`; `beOK` = the backend accepted the `Save` -/
 def saveUnpacked (hash : Bytes → ID) (enc : Bytes → Bytes → Bytes) (dec zdec : Bytes → Option Bytes)
     (zenc : Bytes → Bytes) (cfg : SaveCfg) (t : FileType) (buf : Bytes) (nonce : Bytes) (beOK : Bool) :
     SaveUnpOut :=
   let p := if t ≠ .config then compressUnpacked cfg.version zenc buf else buf
   let ciphertext := enc nonce p
-  -- `verifyUnpacked`
-  let verified : Bool :=
-    if cfg.noExtraVerify then true
-    else match dec ciphertext with
-      | none => false
-      | some pt =>
-        let step2 : Option Bytes := if t ≠ .config then decompressUnpacked cfg.version zdec pt else some pt
-        match step2 with
-        | none => false
-        | some plaintext => plaintext == buf
-  if !verified then .corrupt
+  if !verifyUnpacked dec zdec cfg t ciphertext buf then .corrupt
   else
     let id := if t = .config then nullID else hash ciphertext
     if !beOK then .saveErr else .ok id id ciphertext
